@@ -25,6 +25,8 @@ type SymConn struct {
 	EOFs     int
 	Timeouts int
 	Written  []byte
+	Expect   []byte // when set, every Write is checked against Expect[WPos:]
+	WPos     int
 	UDP      bool
 	// deadline bookkeeping (C05)
 	Deadlines     []time.Time
@@ -55,6 +57,13 @@ func (c *SymConn) Read(p []byte) (int, error) {
 }
 
 func (c *SymConn) Write(p []byte) (int, error) {
+	if c.Expect != nil {
+		// checked per write: what is written must continue the expected stream
+		vapi.Assert(len(p) <= len(c.Expect)-c.WPos, "more bytes written than expected")
+		vapi.AssertBytesEqual(p, c.Expect[c.WPos:c.WPos+len(p)], "written bytes differ from the expected stream")
+		c.WPos += len(p)
+		return len(p), nil
+	}
 	c.Written = append(c.Written, p...)
 	return len(p), nil
 }
